@@ -115,6 +115,10 @@ structure Sys where
   comps : List Comp := []
   nextWp : Nat := 1                  -- GLOBAL_WP_COUNTER
   nextBp : Nat := 1                  -- GLOBAL_BP_COUNTER (only companions are counted here)
+  /-- thread ids the kernel has created but the tracer has not registered yet (`tracee_ctl` does not know them):
+  such a thread sits in its initial PTRACE_EVENT_STOP, has executed nothing, and its debug registers are the
+  cleared ones Linux gives every new thread; `state.sync` of an enable/disable does not reach it -/
+  newborn : List Nat := []
   deriving Repr, DecidableEq
 
 inductive Err where
@@ -198,8 +202,20 @@ inductive Op where
   | rmNum (n : Nat)
   | rmAddr (a : Nat)
   | rmExpr (e : Nat)
-  /-- the debuggee creates a thread (PTRACE_EVENT_CLONE -> `distribute_to_tracee`) -/
+  /-- the debuggee creates a thread and the tracer learns of it in the common order (= `spawn t; evClone t` with
+  an anonymous thread id): PTRACE_EVENT_CLONE -> `distribute_to_tracee` -/
   | clone
+  /-- kernel side of a thread creation: thread `tid` now exists, stopped, debug registers cleared, unknown to
+  the tracer; two notifications are outstanding (the parent's PTRACE_EVENT_CLONE and the child's initial
+  PTRACE_EVENT_STOP) and `waitpid(-1)` may hand them over in either order -/
+  | spawn (tid : Nat)
+  /-- the tracer handles PTRACE_EVENT_CLONE of some parent whose event message is `tid`
+  (`tracer.rs`, `libc::PTRACE_EVENT_CLONE` arm): a tid already registered is skipped, otherwise it is registered,
+  its initial stop is awaited (`wait_one`) and `distribute_to_tracee` runs -/
+  | evClone (tid : Nat)
+  /-- the tracer handles a PTRACE_EVENT_STOP of `tid` returned by `waitpid(-1)` (`libc::PTRACE_EVENT_STOP` arm):
+  a registered tid is only marked stopped, an unknown one is registered and `distribute_to_tracee` runs -/
+  | evStop (tid : Nat)
   /-- a thread other than the main one exits -/
   | threadExit (i : Nat)
   /-- the CPU reports data breakpoints `bits` (DR6 low bits) on thread `t` (0 = main); the tracer runs
@@ -207,8 +223,11 @@ inductive Op where
   | hit (t bits : Nat)
   /-- the companion breakpoint at `addr` is hit: `WatchpointHitType::EndOfScope` hook -/
   | scopeEnd (addr : Nat)
-  /-- exit or restart of the debuggee: `clear_local_disable_global`, new process, `refresh` -/
-  | restart
+  /-- `restart_debugee` of a running debuggee (`alive = true`: `clear_local_disable_global` talks to the live
+  process) or exit of the debuggee followed by a new run (`alive = false`: the same function runs in the
+  `DebugeeExit` handler when every ptrace request already fails); then `disable_all_breakpoints`, a new process,
+  and `refresh` at its entry point -/
+  | restart (alive : Bool)
   deriving Repr, DecidableEq
 
 inductive Res where
@@ -260,22 +279,78 @@ def removeNums (s : Sys) : List Nat → Option Sys
     | none => none
     | some (_, s') => removeNums s' ns
 
-/-- `clear_local_disable_global` followed by a fresh process and `refresh`: scoped watchpoints are removed (their
-companions released), the others keep number/address/size/condition and are re-enabled, in list order, on the
-register file of the new process (all zero), each through the ordinary free-slot search. -/
+/-- `refresh`: every watchpoint of the list is re-enabled, in list order, on the register file of the current
+process, each through the ordinary free-slot search; a failing `hw.enable` leaves the watchpoint as it is (the
+error is only printed).  The list is rebuilt by appending, which is what the in-place `iter_mut` amounts to. -/
 def refreshGo (s : Sys) : List Wp → Sys
   | [] => s
   | w :: ws =>
     match hwEnable s { w.hw with reg := none } with
-    | .error _ => refreshGo { s with wps := s.wps ++ [{ w with hw := { w.hw with reg := none } }] } ws
+    | .error _ => refreshGo { s with wps := s.wps ++ [w] } ws
     | .ok (st, hw, s1) => refreshGo { s1 with wps := s1.wps ++ [{ w with hw := hw }], last := some st } ws
 
-/-- registry and (new) process right after `clear_local_disable_global`, `disable_all_breakpoints` (which drops
-every `WatchpointCompanion` breakpoint, referenced or not) and the start of the new process -/
-def hibernate (s : Sys) : Sys :=
-  { s with main := {}, others := [], last := none, wps := [], comps := [] }
+/-- the loop of `WatchpointRegistry::clear_local_disable_global`, as written:
+```
+let wp_count = self.watchpoints.len();  let mut j = 0;
+for _ in 0..wp_count {
+    if self.watchpoints[j].scoped() { self.remove(.., j) /* Vec::remove(j) + disable; error collected */ }
+    else { self.watchpoints[j].disable(..) /* error collected */;  j += 1; }
+}
+```
+`n` = iterations left, `j` = the index variable.  `alive = false`: the process is gone, `HardwareDebugState::current`
+fails first thing in `hw.disable`, so a scoped watchpoint is dropped from the vector with nothing else done, and an
+unscoped one is left exactly as it is (its `register` keeps the stale slot).  `alive = true`: `wpDisable` (registers of
+every thread rewritten, companion reference released); `none` = a Rust panic (`watchpoints[j]` out of bounds,
+`register.expect("should exist")`). -/
+def cldgLoop (alive : Bool) : Nat → Nat → Sys → Option Sys
+  | 0, _, s => some s
+  | n + 1, j, s =>
+    match s.wps[j]? with
+    | none => none
+    | some w =>
+      if w.scoped then
+        let s1 := { s with wps := s.wps.eraseIdx j }
+        if alive then
+          match wpDisable s1 w with
+          | none => none
+          | some (st, s2) => cldgLoop alive n j { s2 with last := some st }
+        else cldgLoop alive n j s1
+      else
+        if alive then
+          match wpDisable s w with
+          | none => none
+          | some (_, s2) =>
+            cldgLoop alive n (j + 1) { s2 with wps := s2.wps.set j { w with hw := { w.hw with reg := none } } }
+        else cldgLoop alive n (j + 1) s
 
-def restart (s : Sys) : Sys := refreshGo (hibernate s) (s.wps.filter (fun w => !w.scoped))
+/-- `clear_local_disable_global` -/
+def clearLocalDisableGlobal (alive : Bool) (s : Sys) : Option Sys :=
+  (cldgLoop alive s.wps.length 0 s).map (fun s' => { s' with last := none })
+
+/-- `disable_all_breakpoints` (drops every `WatchpointCompanion` breakpoint, referenced or not) and the start of the
+new process: one thread, debug registers cleared -/
+def newProcess (s : Sys) : Sys := { s with main := {}, others := [], newborn := [], comps := [] }
+
+/-- `WatchpointRegistry::refresh` at the entry point of the new process; `debug_assert!(!wp.scoped())` is a panic
+of the (debug-assertion) build the harness links -/
+def refresh (s : Sys) : Option Sys :=
+  if s.wps.any (fun w => w.scoped) then none else some (refreshGo { s with wps := [] } s.wps)
+
+def restart (alive : Bool) (s : Sys) : Option Sys :=
+  match clearLocalDisableGlobal alive s with
+  | none => none
+  | some s1 => refresh (newProcess s1)
+
+/-- the register file Linux gives a new thread, as PTRACE_PEEKUSER shows it: `copy_thread` drops the breakpoints
+(DR0-3 read 0 and nothing is armed) but copies `thread.ptrace_dr7`, the value reported as DR7, from the parent -/
+def kernelNewThread (parent : Img) : Img := { dr7 := parent.dr7 }
+
+/-- first handling of a thread the tracer did not know: `tracee_ctl.add` + `distribute_to_tracee`
+(`last_seen_state`, when there is one, is written to the new thread; otherwise what the kernel gave it stays — the
+main thread stands for the parent; while `last_seen_state` is `None` no register of the process has been written
+since it started, so it does not matter when the parent's DR7 is looked at) -/
+def register (s : Sys) (tid : Nat) : Sys :=
+  { s with newborn := s.newborn.filter (· != tid), others := s.others ++ [s.last.getD (kernelNewThread s.main)] }
 
 def step (s : Sys) : Op → Res × Sys
   | .addMem a sz c => addMem s a sz c
@@ -284,8 +359,15 @@ def step (s : Sys) : Op → Res × Sys
   | .rmAddr a => rmRes (removeWhere s (fun w => w.hw.addr == a)) s
   | .rmExpr e => rmRes (removeWhere s (fun w => w.expr == some e)) s
   | .clone =>
-    -- the kernel starts a new thread with cleared debug registers; the tracer copies `last_seen_state`
-    (.done, { s with others := s.others ++ [s.last.getD {}] })
+    -- the kernel starts the new thread with `kernelNewThread`; the tracer copies `last_seen_state`
+    (.done, { s with others := s.others ++ [s.last.getD (kernelNewThread s.main)] })
+  | .spawn t => (.done, if s.newborn.contains t then s else { s with newborn := s.newborn ++ [t] })
+  | .evClone t =>
+    -- `if self.tracee_ctl.tracee_mut(new_thread_id).is_none() { add; wait_one; distribute_to_tracee }`
+    (.done, if s.newborn.contains t then register s t else s)
+  | .evStop t =>
+    -- `match self.tracee_ctl.tracee_mut(pid) { Some(t) => t.set_stop(..), None => { add; distribute_to_tracee } }`
+    (.done, if s.newborn.contains t then register s t else s)
   | .threadExit i => (.done, { s with others := s.others.eraseIdx i })
   | .hit t bits =>
     let bits := bits % 16
@@ -307,7 +389,10 @@ def step (s : Sys) : Op → Res × Sys
         | some s' => (.ended c.wps, s')
         | none => (.panic, s)
       else (.panic, s)
-  | .restart => (.done, restart s)
+  | .restart alive =>
+    match restart alive s with
+    | some s' => (.done, s')
+    | none => (.panic, s)
 
 def run (s : Sys) : List Op → Sys
   | [] => s
